@@ -1700,14 +1700,24 @@ class Entity(Instance):
         return TextBlock(title="port (", content=[self._port_declarations(), ");"])
 
     def _library_declaration(self) -> TextBlock:
-        extern_libraries = set()
+        extern_libraries = []
 
-        for entity in self._sub_entities:
-            assert isinstance(entity, EntityInst)
-            path = entity._entity.path()
-            if path is not None and path != "work":
-                lib_name = path.split(".")[0]
-                extern_libraries.update([f"library {lib_name.lower()};"])
+        # _sub_entities leaves out extern entities, the ones that
+        # usually live in another library: walk all instances
+        # (in order of instantiation, so the text is reproducible)
+        def collect(instances):
+            for inst in instances:
+                if isinstance(inst, Block):
+                    collect(inst._subblocks)
+                elif isinstance(inst, EntityInst):
+                    path = inst._entity.path()
+                    if path is not None and path != "work":
+                        lib_name = path.split(".")[0]
+                        clause = f"library {lib_name.lower()};"
+                        if clause not in extern_libraries:
+                            extern_libraries.append(clause)
+
+        collect(self._instances)
 
         return TextBlock(
             [
